@@ -926,6 +926,54 @@ static void range_bound(const std::string& sub, const std::string& desc, Side& S
     OFFX = OFFY = 0;
 }
 
+// Operands of 3 and 4 polygons: one covering member (the full g=5 square) and 2 or 3 further members
+// (rectangles of width/height 1 or 2 anywhere on the lattice, right triangles cut from the 1x1 and 2x2 squares;
+// both windings) that are nested in / overlap the cover and each other in every left-right and bottom-top
+// arrangement.  Non-zero filling must ignore members that start inside a region their own operand already
+// covers.  Each group G is merged both ways (merge(G), boolean(G,{},Or)) and combined with every B of a small
+// set as G op B and B op G; same oracle (coverage of G = union of the members' exact coverages).
+struct MultiGroup { int m[4]; };
+static void multi_bound(const std::string& sub, const std::string& desc, ShapeSet& MS, const std::vector<MultiGroup>& groups, ShapeSet& BS, const Grid& G, int64_t S, int64_t chunk) {
+    int64_t ridx;
+    bool rep = replay_idx_here(sub, ridx);
+    if (rep && ridx < 0) return;
+    if (!rep && skip_bound(sub, desc)) return;
+    MS.prepare(G); BS.prepare(G);
+    MS.set_scaling(S); BS.set_scaling(S);
+    Ctx cx;
+    cx.init(sub, G, S);
+    int64_t nG = (int64_t)groups.size(), n = (nG + chunk - 1) / chunk, nB = (int64_t)BS.size();
+    auto body = [&](int64_t idx) {
+        Operand A, B;
+        for (int64_t g = idx * chunk; g < std::min(nG, (idx + 1) * chunk); g++) {
+            operand_single(MS, groups[g].m[0], A);
+            for (int t = 1; t < 4; t++) {
+                int i = groups[g].m[t];
+                if (i < 0) continue;
+                A.fine.push_back(&MS.fine[i]);
+                A.gp.push_back(MS.gp[i]);
+                A.cover |= MS.cover[i];
+                A.near |= MS.near[i];
+                A.nverts += (int)MS.lat[i].size();
+            }
+            T.m[A.fine.size() == 3 ? "groups_of_3" : "groups_of_4"]++;
+            check_merge(cx, A);
+            for (int64_t b = 0; b < nB; b++) {
+                operand_single(BS, (int)b, B);
+                check_pair(cx, A, B, -1, NULL, g == nG / 3 && b == 0);
+                check_pair(cx, B, A);
+            }
+        }
+        T.flush();
+    };
+    if (rep) { body(ridx); return; }
+    double t0 = now();
+    bool ok = parallel_for(*R, n, body, [&](int64_t idx) { return jobj({{"bound", jstr(sub)}, {"group_chunk", jint(idx)}, {"note", jstr("crash/hang while executing one of the groups of this chunk")}}); },
+                           [&](int64_t idx) { return fmt("sub=%s idx=%lld", sub.c_str(), (long long)idx); }, PFOptions{300, sub, true});
+    R->bound(sub, desc + fmt("  [%lld groups x (2 merges + %lld single shapes B x {G op B, B op G} x 4 operations), scaling %lld, %d sample points]", (long long)nG, (long long)nB, (long long)S, G.count()), ok,
+             ok ? nG * (2 + nB * 8) : 0, {{"wall_s", jnum(now() - t0)}});
+}
+
 // offset(const Polygon&, ...) is an inline wrapper that forwards to offset(array, ...); its geometry belongs
 // to C13, here only the forwarding is judged: for every shape, distance, join, tolerance and union flag the
 // wrapper must return exactly (error code, polygon count, vertex lists bit for bit) what the array function
@@ -1092,6 +1140,47 @@ int main(int argc, char** argv) {
     g3grpCC.set = &g3sf;
     for (int i = 0; i < nC3; i++)
         for (int j = i; j < nC3; j++) g3grpCC.items.push_back({i, j});
+    // multi-polygon operands (see multi_bound)
+    ShapeSet multi, multiB;
+    int mCover[2], nRect = 0, nMem = 0;
+    {
+        std::vector<Poly> v;
+        v.push_back(Poly{{0, 0}, {4, 0}, {4, 4}, {0, 4}});
+        v.push_back(Poly{{0, 0}, {0, 4}, {4, 4}, {4, 0}});
+        mCover[0] = 0; mCover[1] = 1;
+        std::vector<Poly> mem;
+        for (int w = 1; w <= 2; w++) for (int h = 1; h <= 2; h++)
+            for (int x = 0; x + w <= 4; x++) for (int y = 0; y + h <= 4; y++) mem.push_back(Poly{{x, y}, {x + w, y}, {x + w, y + h}, {x, y + h}});
+        nRect = (int)mem.size();
+        for (int w = 1; w <= 2; w++)
+            for (int x = 0; x + w <= 4; x++) for (int y = 0; y + w <= 4; y++) {
+                P a = {x, y}, b = {x + w, y}, c = {x + w, y + w}, d = {x, y + w};
+                mem.push_back(Poly{a, b, d}); mem.push_back(Poly{b, c, a}); mem.push_back(Poly{c, d, b}); mem.push_back(Poly{d, a, c});
+            }
+        nMem = (int)mem.size();
+        for (auto& p : mem) v.push_back(p);                                   // counter-clockwise: index 2 + k
+        for (auto p : mem) { std::reverse(p.begin() + 1, p.end()); v.push_back(p); }  // clockwise: index 2 + nMem + k
+        multi.add(v, 0, 0);
+        std::vector<Poly> bv = {Poly{{1, 1}, {3, 1}, {3, 3}, {1, 3}}, Poly{{0, 0}, {0, 4}, {4, 0}}, Poly{{2, 0}, {4, 0}, {4, 4}, {2, 4}}};
+        multiB.add(bv, 0, 0);
+    }
+    std::vector<MultiGroup> multi3, multi4;
+    for (int c = 0; c < 2; c++)
+        for (int i = 0; i < nMem; i++)
+            for (int j = 0; j < nMem; j++) {
+                if (i == j) continue;
+                multi3.push_back({{mCover[c], 2 + i, 2 + j, -1}});         // both members counter-clockwise, both orders
+                multi3.push_back({{mCover[c], 2 + i, 2 + nMem + j, -1}});  // second member clockwise
+            }
+    for (int i = 0; i < nRect; i++)
+        for (int j = i + 1; j < nRect; j++)
+            for (int k = j + 1; k < nRect; k++) {
+                multi4.push_back({{mCover[0], 2 + i, 2 + j, 2 + k}});
+                multi4.push_back({{mCover[0], 2 + i, 2 + nMem + j, 2 + k}});
+            }
+    run.note(fmt("multi-polygon operands: %d members (%d rectangles, %d triangles) x 2 windings, %d groups of 3, %d groups of 4", nMem, nRect, nMem - nRect, (int)multi3.size(), (int)multi4.size()));
+    const char* D_MULTI3 = "operands of 3 polygons: cover (full g=5 square, either winding) + every ordered pair of distinct members (rectangles 1..2 x 1..2 anywhere, right triangles of the 1x1 and 2x2 squares), second member in either winding";
+    const char* D_MULTI4 = "operands of 4 polygons: cover (full g=5 square) + every unordered triple of distinct rectangles 1..2 x 1..2, second member in either winding";
     const char* D_SINGLE = "g=3, n<=4, start-fixed shapes, both orientations: every ordered pair of single shapes";
     const char* D_CHAIN = "C = A not B for every nested pair (A: g=4 n<=4 start-fixed, B on the inner 2x2 lattice, strictly inside A), all four operations on (A,B) checked";
     if (!TH) {
@@ -1108,6 +1197,8 @@ int main(int argc, char** argv) {
             range_bound(std::string("q.range.group_a.") + RANGE_L[c].name, "A = every two-shape group {ccw T_i, ccw T_j}, i<=j, B = every counter-clockwise g=3 triangle, stretched and translated", g3grpCC, g3triCCW, G3, RANGE_L[c], false);
         for (int c = 0; c < 5; c++)
             range_bound(std::string("q.range.single.") + RANGE_H[c].name, "g=3 start-fixed: every triangle x every triangle, translated to 2^61", g3tri, g3tri, G3, RANGE_H[c], false);
+        multi_bound("q.multi3.g5.s1000", D_MULTI3, multi, multi3, multiB, G5, S1000, 64);
+        multi_bound("q.multi4.g5.s1000", D_MULTI4, multi, multi4, multiB, G5, S1000, 64);
         offset_overload_bound("q.overload.offset.g3n4.s1000", g3sf, S1000);
         chain_bound("q.chain.g4.s1000", std::string(D_CHAIN) + "; then C op D for every counter-clockwise g=4 start-fixed triangle D", nest4, 0, g4sf, in4, &g4triCCW, 1, G4, S1000, 1, 2000);
         chain_bound("q.chain.g4.first_step.s1", D_CHAIN, nest4, 0, g4sf, in4, NULL, 1, G4f, S1, 32, 1);
@@ -1138,6 +1229,10 @@ int main(int argc, char** argv) {
             range_bound(std::string("t.range.group_b.") + RANGE_L[c].name, "A = every g=3 triangle, B = every two-shape group {ccw T_i, ccw T_j}, i<=j, stretched and translated", g3tri, g3grpCC, G3, RANGE_L[c], false);
         for (int c = 0; c < 5; c++)
             range_bound(std::string("t.range.single.") + RANGE_H[c].name, "g=3 start-fixed: every n<=4 shape x every n<=4 shape, translated to 2^61", g3all, g3all, G3, RANGE_H[c], false);
+        multi_bound("t.multi3.g5.s1000", D_MULTI3, multi, multi3, multiB, G5, S1000, 64);
+        multi_bound("t.multi4.g5.s1000", D_MULTI4, multi, multi4, multiB, G5, S1000, 64);
+        multi_bound("t.multi3.g5.s1", D_MULTI3, multi, multi3, multiB, G5, S1, 64);
+        multi_bound("t.multi4.g5.s2p40", D_MULTI4, multi, multi4, multiB, G5, S40, 64);
         offset_overload_bound("t.overload.offset.g3n4.s1000", g3sf, S1000);
         offset_overload_bound("t.overload.offset.g4n4.s2p20", g4sf, S20);
         product_bound("t.single.g3n4.s1", D_SINGLE, g3all, g3all, G3, S1, 2000, true);
